@@ -84,6 +84,13 @@ def run(ctx):
     if fcov is not None:
         c08.inputs_rule(dep(ctx, "C16", "C08"), fcov)
     c08.bin_rule(dep(ctx, "C16", "C08"))          # a k-mer absent from the table counts 0 (no panic on a missing key)
+    # "every accepted option combination": accepted = the documented ranges, refused only where documented
+    from . import c15
+    c15.ranges_rule(dep(ctx, "C16", "C15"))
+    fcli_ = ctx.view(c15.CLI, c15.UNIT)
+    if fcli_ is not None:
+        c15.refusal_rule(dep(ctx, "C16", "C15"), fcli_)
+        c15.flow_rule(dep(ctx, "C16", "C15"), fcli_)
     # empty input on the mmap path: the mapping has length 0, so no unconditional write may touch it
     from . import c05
     fb, fm = ctx.view(c05.BATCH), ctx.view(c05.MMAP)
